@@ -221,3 +221,16 @@ Proof.
     destruct H as [->|[->|[H|[->| ->]]]]; try reflexivity.
     pose proof (call_wf_cache k l Wf H) as M. destruct l; cbn in M; try discriminate; reflexivity.
 Qed.
+
+(* a MEASURED footprint accepted by fp_agrees has no class-level and no
+   per-binding write other than Factory.cache entries *)
+Lemma measured_footprint_owned_l x :
+  fp_agrees x = true ->
+  forall w, In w (fc_writes x ++ fc_transient x) ->
+    (class_owned (ow_loc w) = true -> exists key, ow_loc w = LFactory key)
+    /\ binding_owned (ow_loc w) = false.
+Proof.
+  unfold fp_agrees. rewrite forallb_forall. intros H w Hw. specialize (H w Hw).
+  destruct (ow_loc w); cbn in *; try discriminate; split; try reflexivity; try discriminate;
+    intro C; try discriminate. exists k. reflexivity.
+Qed.
